@@ -9,8 +9,15 @@ SEEDED = os.environ.get('SEEDED_DIR', '/verif/seeded')
 ENV = dict(os.environ, GOFLAGS='-mod=mod', GOPROXY='off', GOSUMDB='off', GOTOOLCHAIN='local')
 
 
+def _limits():
+    # a changed library (or its demonstration) may loop while writing: no process started here may create a file
+    # larger than 4 GiB
+    import resource
+    resource.setrlimit(resource.RLIMIT_FSIZE, (4 << 30, 4 << 30))
+
+
 def sh(cmd, cwd=None, env=None, timeout=1800):
-    p = subprocess.run(cmd, shell=isinstance(cmd, str), cwd=cwd, env=env or ENV, stdout=subprocess.PIPE, stderr=subprocess.STDOUT, timeout=timeout)
+    p = subprocess.run(cmd, shell=isinstance(cmd, str), cwd=cwd, env=env or ENV, stdout=subprocess.PIPE, stderr=subprocess.STDOUT, timeout=timeout, preexec_fn=_limits)
     return p.returncode, p.stdout.decode('utf-8', 'replace')
 
 
